@@ -1,7 +1,7 @@
 (* C06 — property theorems. Statements only, each closed by `exact <lemma>` from Proofs.v, with
    Print Assumptions beneath, and the non-vacuity examples. *)
 From Coq Require Import Permutation.
-From C06 Require Import Model Proofs.
+From C06 Require Import Model Proofs ProofsQ.
 Open Scope Z_scope.
 
 (* SamplesContainer.Merge: if container a holds exactly (Total, Sum, Min, Max, NotExists, sample
@@ -12,3 +12,49 @@ Theorem C06_merge_exact :
     sdesc c a va na -> sdesc c b vb nb -> sdesc c (merge_summ a b) (va ++ vb) (na + nb).
 Proof. exact sdesc_merge. Qed.
 Print Assumptions C06_merge_exact.
+
+(* Quantile (as repaired by e5a0cc6): for a non-empty bin with at most 8096 values, Quantile(a/2^b) is
+   element floor((n-1)*a/2^b + 1/2) of the sorted VALUES (so q = 0 is the minimum, q = 1 the maximum),
+   also when no samples were collected because only 0 and 1 were requested; the index is in range. *)
+Theorem C06_quantile_exact :
+  forall c s vs ne a b,
+    sdesc c s vs ne -> vs <> [] -> (N.of_nat (length vs) <= max_samples)%N -> (a <= 2 ^ b)%N ->
+    (c = true \/ a = 0%N \/ a = (2 ^ b)%N) ->
+    quantile s (a, b) = MNum (nth (qindex (length vs) (a, b)) (ZSort.sort vs) 0)
+    /\ (qindex (length vs) (a, b) < length vs)%nat.
+Proof. exact ProofsQ.quantile_exact. Qed.
+Print Assumptions C06_quantile_exact.
+
+(* an empty bin has no quantile (NaN) *)
+Theorem C06_quantile_empty : forall c s ne qt, sdesc c s [] ne -> quantile s qt = MNaN.
+Proof. exact ProofsQ.quantile_empty. Qed.
+Print Assumptions C06_quantile_empty.
+
+(* Histogram: for every merge tree over the fractions, every interval and time range, the count of
+   bucket b is the number of selected documents of the whole corpus whose timestamp falls in b. *)
+Theorem C06_hist_exact :
+  forall interval from to t b,
+    hlookup b (hist_tree interval from to t) = ProofsQ.hcount interval from to b (tree_docs t).
+Proof. exact ProofsQ.hist_exact. Qed.
+Print Assumptions C06_hist_exact.
+
+(* the finding repaired by e5a0cc6, kept on the old definition: a non-empty bin whose samples were
+   not collected (only quantiles 0/1 requested) answered NaN for the minimum *)
+Example C06_quantile_v0_refuted :
+  exists s vs, sdesc false s vs 0 /\ vs <> [] /\ quantile_v0 s (0%N, 0%N) = MNaN
+               /\ quantile s (0%N, 0%N) = MNum (-150).
+Proof.
+  exists (insert_val false (-150) new_summ), [-150]. split; [|split; [discriminate|split; reflexivity]].
+  apply sdesc_insert. apply sdesc_new.
+Qed.
+
+(* non-vacuity: the hypotheses of C06_merge_exact / C06_quantile_exact are met by real containers:
+   two fractions' containers with collected samples, merged, median = element 1 of [1;2;3] *)
+Example C06_nonvacuous :
+  let a := insert_val true 3 (insert_val true 1 new_summ) in
+  let b := insert_val true 2 new_summ in
+  sdesc true (merge_summ a b) ([3; 1] ++ [2]) (0 + 0) /\ quantile (merge_summ a b) (1%N, 1%N) = MNum 2.
+Proof.
+  split; [|reflexivity].
+  apply sdesc_merge; repeat apply sdesc_insert; apply sdesc_new.
+Qed.
